@@ -130,6 +130,7 @@ structure World where
   st : StateTbl
   ev : EvSt
   svc : List (String × Nat)             -- `Function.service_cnt`
+  owner : List (String × String)        -- `Function.service2global_ctx`: service name ↦ owning global context
   started : List Gen                    -- generations whose triggers run
   binds : List (String × String × Nat)  -- global variables holding a function: (context, name, generation)
   slots : List (Nat × String × Nat)     -- container slots holding a function: (slot, owning context, generation)
@@ -138,7 +139,8 @@ structure World where
 deriving Repr
 
 def emptyWorld : World :=
-  { st := [], ev := { tbl := [], bus := [] }, svc := [], started := [], binds := [], slots := [], log := [], next := 0 }
+  { st := [], ev := { tbl := [], bus := [] }, svc := [], owner := [], started := [], binds := [], slots := [], log := [],
+    next := 0 }
 
 def svcCount (s : List (String × Nat)) (n : String) : Nat := (s.lookup n).getD 0
 
@@ -170,14 +172,41 @@ def unsubscribe (cont : Bool) (sub : Sub) (g : Gen) (w : World) : World :=
       | .legacy => (idxList g.events).foldl (fun s kv => evDel s kv.2 (g.id, kv.1)) w.ev
       | .new => { w.ev with bus := g.events.foldl busDec w.ev.bus } }
 
+def ownerOf (o : List (String × String)) (n : String) : Option String := o.lookup n
+
+/-- `if key not in cls.service2global_ctx: cls.service2global_ctx[key] = global_ctx_name` -/
+def ownerClaim (ctx : String) (o : List (String × String)) (n : String) : List (String × String) :=
+  if o.any (fun kv => kv.1 == n) then o else o ++ [(n, ctx)]
+
+/-- `Function.service_remove`: the owner entry is dropped together with the last registration (`service_cnt <= 1`) -/
+def svcRelease (s : List (String × Nat) × List (String × String)) (n : String) :
+    List (String × Nat) × List (String × String) :=
+  (svcDec s.1 n, if 1 < svcCount s.1 n then s.2 else s.2.filter (fun kv => !(kv.1 == n)))
+
+/-- `Function.service_register` refuses a name owned by another global context – BEFORE counting the claim.
+The function whose `@service` is refused gets neither services nor triggers (legacy: `trigger_init` raises before any
+trigger is created; new: `DecoratorManager.start` rolls back the decorators already started).  Modelled for functions
+that declare at most one service. -/
+def refused (w : World) (g : Gen) : Bool :=
+  g.services.any (fun n => match ownerOf w.owner n with | some c => !(c == g.ctx) | none => false)
+
+/-- what is left of a function whose service registration was refused: a referenced object without declarations -/
+def inert (g : Gen) : Gen :=
+  { g with states := [], events := [], services := [], startup := false, shutdown := false }
+
+def effective (w : World) (g : Gen) : Gen := if refused w g then inert g else g
+
 def startGen (sub : Sub) (g : Gen) (w : World) : World :=
   let w1 := subscribe sub g w
-  { w1 with svc := g.services.foldl svcInc w1.svc, started := w1.started ++ [g],
+  { w1 with svc := g.services.foldl svcInc w1.svc, owner := g.services.foldl (ownerClaim g.ctx) w1.owner,
+            started := w1.started ++ [g],
             log := if g.startup then w1.log ++ [("startup", g.id)] else w1.log }
 
 def stopGen (cont : Bool) (sub : Sub) (g : Gen) (w : World) : World :=
   let w1 := unsubscribe cont sub g w
-  { w1 with svc := g.services.foldl svcDec w1.svc, started := w1.started.filter (fun x => !(x.id == g.id)),
+  { w1 with svc := (g.services.foldl svcRelease (w1.svc, w1.owner)).1,
+            owner := (g.services.foldl svcRelease (w1.svc, w1.owner)).2,
+            started := w1.started.filter (fun x => !(x.id == g.id)),
             log := if g.shutdown then w1.log ++ [("shutdown", g.id)] else w1.log }
 
 /-- number of references to generation `i` -/
@@ -200,6 +229,9 @@ inductive Op where
   | unloadAll
 deriving Repr
 
+def mkGen (i : Nat) (ctx : String) (states : List (List Var)) (events services : List String) (su sd : Bool) : Gen :=
+  { id := i, ctx := ctx, states := states, events := events, services := services, startup := su, shutdown := sd }
+
 def lookupBind (w : World) (ctx name : String) : Option Nat :=
   (w.binds.find? (fun b => b.1 == ctx && b.2.1 == name)).map (·.2.2)
 
@@ -209,8 +241,7 @@ def setBind (w : World) (ctx name : String) (i : Nat) : World :=
 /-- the effect of the operation itself, before unreferenced generations are collected -/
 def applyOp (sub : Sub) (w : World) : Op → World
   | .define ctx name states events services su sd =>
-    let g : Gen := { id := w.next, ctx := ctx, states := states, events := events, services := services,
-                     startup := su, shutdown := sd }
+    let g : Gen := effective w (mkGen w.next ctx states events services su sd)
     setBind (startGen sub g { w with next := w.next + 1 }) ctx name g.id
   | .del ctx name => { w with binds := w.binds.filter (fun b => !(b.1 == ctx && b.2.1 == name)) }
   | .rebind ctx dst src =>
